@@ -417,7 +417,8 @@ func runHistory(r *Run, in *epochInput, cf *CaseFile, caseID int) historyResult 
 			steps = append(steps, fmt.Sprintf("{| es_fitness := %s; es_go := None |}", FList(fits)))
 			key := "epoch-error"
 			if in.Random && unrelated && (strings.Contains(eerr.Error(), "genome has no genes") || strings.Contains(eerr.Error(), "no traits od genes") ||
-				strings.Contains(eerr.Error(), "without GENES") || strings.Contains(eerr.Error(), "no genes to")) {
+				strings.Contains(eerr.Error(), "without GENES") || strings.Contains(eerr.Error(), "no genes to") ||
+				strings.Contains(eerr.Error(), "invalid argument to Intn")) { // a mutator draws a gene index of the gene-less child
 				key = "singlepoint-empty-child-unrelated-parents"
 			}
 			if in.FitRule == 7 && strings.Contains(eerr.Error(), "progeny size") {
